@@ -225,6 +225,11 @@ Definition c07_ok (g : ledger) (o : op) (x : out) : bool :=
           && Nat.eqb (t_auth t) (r_auth r)
       end
   | TokenRefresh _ _ None _, OTokens _ => false
+  (* "on success the presented refresh token is handed to the storage for rotation and the response
+     carries the storage's new refresh token": a request whose rotation the storage REFUSED (the op
+     says so: the driver made Storage.CreateAccessAndRefreshTokens fail for its duration) is no
+     success - no tokens of any kind for a refresh token the storage did not exchange *)
+  | TokenRefreshRF _ _ _ _, OTokens _ => false
   | TokenRefresh _ _ (Some n) scopes, OErr _ e =>
       (* invalid_scope is the answer to a request that is NOT within the granted scopes *)
       if String.eqb e E_scope
